@@ -87,6 +87,7 @@ package match
 //@   ensures [registered-here C06] len(query) == 0 ==> has(b.clients, client)
 //@     && (forall c any :: c != client ==> (has(b.clients, c) <==> old(has(b.clients, c))))
 //@     && b.children == old(b.children)
+//@   ensures [a-longer-query-always-descends C06] len(query) > 0 ==> hits("call (*branch).addQuery#0") == old(hits("call (*branch).addQuery#0")) + 1
 //@   assert at call (*branch).addQuery#0: [descends-by-head C06] len(query) > 0 && arg0 != nil && arg0 == b.children[query[0]] && has(b.children, query[0])
 //@     && view(arg1) == Tail(query) && arg2 == client
 //@     && (old(has(b.children, query[0])) ==> arg0 == old(b.children[query[0]]))
